@@ -59,7 +59,7 @@ def groupBounders (bestAxis : List (List Nat) → Nat) : Nat → List (List Nat)
 inductive Shape (ι : Type) where
   | leaf : ι → Shape ι
   | node : Shape ι → Shape ι → Shape ι
-deriving Repr
+deriving DecidableEq, Repr
 
 namespace Shape
 variable {ι : Type}
@@ -139,6 +139,46 @@ def bestSplitAxis {β : Type} (union : β → β → β) (area : β → α) (box
       (ls.zipIdx.foldl (fun (acc : Nat × α) (li : List Nat × Nat) =>
         let a := areaFor li.1
         if a < acc.2 then (li.2 + 1, a) else acc) (0, areaFor l)).1
+end
+
+/-! ### The real split oracle of `NewBVHAreaDensity` (`areaDensityBVHSplit` + the axis choice of `newBVH`) -/
+section
+variable {α β : Type} [Add α] [Mul α] [LT α] [DecidableLT α] [OfNat α 0]
+
+/-- Running unions from the left: `[b0, b0∪b1, b0∪b1∪b2, …]` (`min = min.Min(t.Min); max = max.Max(t.Max)`). -/
+def prefixUnions (union : β → β → β) : List β → List β
+  | [] => []
+  | b :: bs => (bs.foldl (fun (acc : β × List β) x => (union acc.1 x, union acc.1 x :: acc.2)) (b, [b])).2.reverse
+
+/-- Running unions from the right (the loop that fills `cache`): entry `i` is the union of `faces[i:]`. -/
+def suffixUnions (union : β → β → β) (l : List β) : List β := (prefixUnions union l.reverse).reverse
+
+/-- `areaDensityBVHSplit(faces, cache)`: `boxes` are the bounds of `faces` in the order of one axis, `cnt` is
+`float64(·)`.  For `i = 1 … len-2`: `score = area(faces[0..i]) * i + area(faces[i+1..]) * (len-i-1)`; the first
+strictly smallest score wins (`score < bestScore || i == 1`), the returned index is `i + 1`.  Fewer than three
+faces: the loop does not run, `(0, 0)`. -/
+def areaDensitySplit (union : β → β → β) (area : β → α) (cnt : Nat → α) (boxes : List β) : Nat × α :=
+  match boxes with
+  | [] => (0, 0)
+  | b0 :: _ =>
+      let m := boxes.length
+      let pre := prefixUnions union boxes
+      let suf := suffixUnions union boxes
+      (List.range' 1 (m - 2)).foldl (fun (acc : Nat × α) i =>
+        let score := area (pre.getD i b0) * cnt i + area (suf.getD (i + 1) b0) * cnt (m - i - 1)
+        if score < acc.2 ∨ i = 1 then (i + 1, score) else acc) (0, 0)
+
+/-- The split `newBVH` performs with `areaDensityBVHSplit`: the splitter runs on every axis; 3D: x if its score
+is strictly below both others, else y if strictly below both others, else z; 2D: x if strictly below y, else y. -/
+def bvhSplit (union : β → β → β) (area : β → α) (cnt : Nat → α) (boxOf : Nat → β)
+    (sorted : List (List Nat)) : Nat × Nat :=
+  match sorted.map (fun l => areaDensitySplit union area cnt (l.map boxOf)) with
+  | [x, y] => if x.2 < y.2 then (0, x.1) else (1, y.1)
+  | [x, y, z] =>
+      if x.2 < y.2 ∧ x.2 < z.2 then (0, x.1)
+      else if y.2 < x.2 ∧ y.2 < z.2 then (1, y.1)
+      else (2, z.1)
+  | _ => (0, 1)
 end
 
 /-! ## 2. Joined colliders / joined objects -/
